@@ -79,7 +79,7 @@ CLAIMS["C18"] = (
     "Distance ties filtered; query ids unique; explicit-matrix rotation algebra trusted.",
 )
 CLAIMS["C19"] = (
-    "property-based validity-predicate test (partition, consecutive order numbers, link distances in (min,max] and recorded) over generated dense clouds, constructive polylines and integer lattices; branch coverage measured by harness-side wrappers",
+    "property-based validity-predicate test (partition, consecutive order numbers, link distances in (min,max] and recorded) over generated dense clouds, constructive polylines and integer lattices, plus (thorough tier) a coverage-guided atheris/libFuzzer campaign over explicit configurations with cryocat.ribana instrumented; branch coverage measured by harness-side wrappers",
     "Generated paired entry/exit lists that drive the suffix/prefix/both-sides/cut branches (frequency of each branch reported in the evidence labels); every output is checked against the partition and link predicates computed by brute force from the input coordinates. Held on everything explored (48 000 cases in the thorough tier after two repairs).",
     "Real-valued boundary ties filtered; exact boundary hits decided on the integer-lattice family; chains identified by (tomogram, object).",
 )
